@@ -21,7 +21,7 @@ Fixpoint done_aux (i : nat) (base broker_ts log_start : Z) (fs : list mfut) : li
   | f :: fs' =>
       let rest := done_aux (S i) base broker_ts log_start fs' in
       if f_done f then rest
-      else (i, RMeta (base + f_rel f)
+      else (i, RMeta (if base <? 0 then -1 else base + f_rel f)
                      (if broker_ts =? -1 then f_ts f else broker_ts)
                      (if broker_ts =? -1 then 0 else 1)
                      log_start) :: rest
